@@ -59,6 +59,10 @@ enum Ev {
     TakeAborts,
     Advance(u64),
     Stray(u64, u64, bool),
+    Recover,
+    CompleteCommit(u64),
+    CompleteAbort(u64),
+    Sweep(u64, bool, u64),
 }
 impl Ev {
     fn coq(&self) -> String {
@@ -77,6 +81,10 @@ impl Ev {
             Ev::TakeAborts => "ETakeAborts".into(),
             Ev::Advance(d) => format!("EAdvance {d}"),
             Ev::Stray(t, s, y) => format!("EStray {t} {s} {}", b(*y)),
+            Ev::Recover => "ERecover".into(),
+            Ev::CompleteCommit(t) => format!("ECompleteCommit {t}"),
+            Ev::CompleteAbort(t) => format!("ECompleteAbort {t}"),
+            Ev::Sweep(s, strict, tmo) => format!("ESweep {s} {} {tmo}", b(*strict)),
         }
     }
 }
@@ -105,6 +113,7 @@ struct World {
     net: Vec<Msg>,
     ids: Vec<u64>,               // real id of tx i+1
     parts: Vec<Vec<u64>>,        // participants of tx i+1
+    ops: Vec<Vec<(u64, Vec<POp>)>>, // operations per shard of tx i+1
     now: u64,
     h0: u64,
     kk: u64,
@@ -139,6 +148,7 @@ impl World {
             net: vec![],
             ids: vec![],
             parts: vec![],
+            ops: vec![],
             now: T0,
             h0: lock_handle_current(),
             kk,
@@ -195,6 +205,7 @@ impl World {
                 let tx = self.c.begin(&"n0".to_string(), &shards).expect("begin");
                 self.ids.push(tx.tx_id);
                 self.parts.push(parts.clone());
+                self.ops.push(ops.clone());
                 let t = self.ids.len() as u64;
                 for s in parts {
                     let o = ops.iter().find(|(sh, _)| sh == s).map(|(_, o)| o.clone()).unwrap_or_default();
@@ -293,7 +304,7 @@ impl World {
                 }
                 Err(_) => {
                     dist.hit("ev.abort.refused");
-                    vec![1]
+                    vec![if self.phase(*t) == Some(3) { 2 } else { 1 }]
                 }
             },
             Ev::Timeouts => {
@@ -339,7 +350,74 @@ impl World {
                 dist.hit("ev.stray_vote");
                 vec![r]
             }
+            Ev::Recover => {
+                let st = self.c.recover();
+                let mut ds: Vec<(u64, u64)> =
+                    self.c.get_pending_decisions().into_iter().map(|(r, ph)| (self.small(r), if ph == TxPhase::Committing { 3 } else { 2 })).collect();
+                ds.sort();
+                let mut ret = vec![st.timed_out as u64, st.pending_prepare as u64, st.pending_commit as u64, st.pending_abort as u64];
+                for (t, ph) in &ds {
+                    ret.push(*t);
+                    ret.push(*ph);
+                    if *t == 0 {
+                        continue;
+                    }
+                    for s in self.parts[*t as usize - 1].clone() {
+                        self.net.push(if *ph == 3 { Msg::Commit(*t, s) } else { Msg::Abort(*t, s) });
+                    }
+                }
+                dist.hit("ev.recover");
+                dist.add("ev.recover.decisions", ds.len() as u64);
+                ret
+            }
+            Ev::CompleteCommit(t) => {
+                let ph = self.phase(*t);
+                match self.c.complete_commit(self.real(*t)) {
+                    Ok(()) => {
+                        dist.hit("ev.complete_commit.ok");
+                        vec![0]
+                    }
+                    Err(_) => vec![if ph.is_none() { 1 } else { 2 }],
+                }
+            }
+            Ev::CompleteAbort(t) => {
+                let ph = self.phase(*t);
+                match self.c.complete_abort(self.real(*t)) {
+                    Ok(()) => {
+                        dist.hit("ev.complete_abort.ok");
+                        vec![0]
+                    }
+                    Err(_) => vec![if ph.is_none() { 1 } else { 2 }],
+                }
+            }
+            Ev::Sweep(s, strict, tmo) => {
+                let p = &self.ps[*s as usize];
+                let got = if *strict { p.recover(Duration::from_millis(*tmo)) } else { p.cleanup_stale(Duration::from_millis(*tmo)) };
+                let mut out: Vec<u64> = got.iter().map(|r| self.small(*r)).collect();
+                out.sort();
+                dist.hit(if *strict { "ev.sweep.recover" } else { "ev.sweep.cleanup_stale" });
+                if !*strict {
+                    dist.add("ev.sweep.dropped", out.len() as u64);
+                }
+                out
+            }
         }
+    }
+    /// the order in which a sweep drops several stale transactions is the HashMap's: it matters only when two prepared
+    /// transactions of the shard share a key (possible after a lock expiry); such a shard is not swept
+    fn sweep_safe(&self, sh: u64) -> bool {
+        let awaiting: Vec<u64> = self.ps[sh as usize].get_awaiting_decision().iter().map(|r| self.small(*r)).collect();
+        let keys = |t: u64| -> Vec<u64> {
+            self.ops.get((t as usize).wrapping_sub(1)).and_then(|o| o.iter().find(|(s, _)| *s == sh)).map(|(_, o)| o.iter().map(|x| x.key()).collect()).unwrap_or_default()
+        };
+        for (i, a) in awaiting.iter().enumerate() {
+            for b2 in awaiting.iter().skip(i + 1) {
+                if keys(*a).iter().any(|k| keys(*b2).contains(k)) {
+                    return false;
+                }
+            }
+        }
+        true
     }
 }
 
@@ -378,6 +456,7 @@ fn run_script(acts: Vec<Act>, kk: u64, tt: u64, ctmo: u64, parts0: &[(Vec<(u64, 
     for a in acts {
         let e = match a {
             Act::Ev(Ev::Drop(i)) | Act::Ev(Ev::Deliver(i, _)) if i as usize >= w.net.len() => continue,
+            Act::Ev(Ev::Sweep(sh, _, _)) if !w.sweep_safe(sh) => continue,
             Act::Ev(e) => e,
             Act::Deliver(kind, t, s, keep) => {
                 // on a tree that behaves differently the scripted message may not exist: skip the step, never panic
@@ -432,9 +511,16 @@ fn run_random(r: &mut Rng, dist: &mut Dist) -> Outcome {
             let onehot = r.chance(1, 8);
             let shared = ops.iter().enumerate().any(|(i, (_, a))| ops.iter().skip(i + 1).any(|(_, b2)| a.iter().any(|x| b2.iter().any(|y| x.key() == y.key()))));
             Ev::Begin(parts, ops, onehot && shared)
-        } else if k < 62 && !w.net.is_empty() {
+        } else if k < 56 && !w.net.is_empty() {
             let i = if orderly && r.chance(3, 4) { 0 } else { r.below(w.net.len() as u64) };
             Ev::Deliver(i, r.chance(1, 7))
+        } else if k < 58 {
+            Ev::Recover
+        } else if k < 60 && nb > 0 {
+            if r.chance(1, 2) { Ev::CompleteCommit(r.range(1, nb)) } else { Ev::CompleteAbort(r.range(1, nb)) }
+        } else if k < 63 {
+            let sh = r.below(np);
+            if w.sweep_safe(sh) { Ev::Sweep(sh, r.chance(1, 3), *r.pick(&[0u64, 10, 50, 5000])) } else { Ev::Advance(1) }
         } else if k < 66 && !w.net.is_empty() {
             Ev::Drop(r.below(w.net.len() as u64))
         } else if k < 78 && nb > 0 {
@@ -549,6 +635,10 @@ fn run_stale_dup(r: &mut Rng, dist: &mut Dist) -> Outcome {
             acts.push(Act::Deliver(if commit2 { "commit" } else { "abort" }, 2, *s, false));
         }
     }
+    // participant housekeeping in the window between T1's end and the arrival of its stale messages
+    if r.chance(1, 2) {
+        acts.push(Act::Ev(Ev::Sweep(star, r.chance(1, 3), *r.pick(&[0u64, 0, 10, 5000]))));
+    }
     // the stale copies of T1 reach shard `star`
     let mut stale: Vec<&'static str> = vec![];
     if keep_prep {
@@ -579,6 +669,133 @@ fn run_stale_dup(r: &mut Rng, dist: &mut Dist) -> Outcome {
         }
     }
     dist.hit("sched.stale_dup");
+    run_script(acts, kk, 2, 100000, &parts0, dist)
+}
+
+/// random member of the family "coordinator recovery sweeps": one or two transactions reach some point of the protocol
+/// (votes missing, all yes, a conflict), time may pass the coordinator's deadline, recover() runs (and its decisions
+/// are broadcast), late votes and the driver's commit / abort / cleanup_timeouts / complete_* calls follow, then a
+/// second recover() after more time
+fn run_recover_family(r: &mut Rng, dist: &mut Dist) -> Outcome {
+    let kk = 2;
+    let np = r.range(2, 3);
+    let ctmo = 100;
+    let parts0: Vec<(Vec<(u64, u64)>, u64)> = (0..np)
+        .map(|_| ((0..kk).filter_map(|k| if r.chance(1, 2) { Some((k, r.range(1, 9))) } else { None }).collect(), *r.pick(&[30000u64, 30000, 50])))
+        .collect();
+    let all: Vec<u64> = (0..np).collect();
+    let mut acts = vec![];
+    let ntx = r.range(1, 2);
+    for t in 1..=ntx {
+        let mut parts = all.clone();
+        r.shuffle(&mut parts);
+        parts.truncate(r.range(2, np) as usize);
+        parts.sort();
+        let ops: Vec<(u64, Vec<POp>)> = parts.iter().map(|s| (*s, vec![POp::Put((t + *s) % kk, r.range(1, 9))])).collect();
+        acts.push(Act::Ev(Ev::Begin(parts.clone(), ops, false)));
+        for s in &parts {
+            acts.push(Act::Deliver("prepare", t, *s, false));
+        }
+        // how many votes reach the coordinator before the first recovery
+        let upto = match r.below(4) {
+            0 => 0,
+            1 => parts.len() - 1,
+            _ => parts.len(),
+        };
+        for s in parts.iter().take(upto) {
+            acts.push(Act::Deliver("vote", t, *s, false));
+        }
+    }
+    let tail = |r: &mut Rng, acts: &mut Vec<Act>| {
+        for _ in 0..r.range(1, 6) {
+            let t = r.range(1, ntx);
+            acts.push(match r.below(9) {
+                0 => Act::Ev(Ev::Commit(t)),
+                1 => Act::Ev(Ev::Abort(t)),
+                2 => Act::Ev(Ev::Timeouts),
+                3 => Act::Ev(Ev::TakeAborts),
+                4 => Act::Ev(Ev::CompleteCommit(t)),
+                5 => Act::Ev(Ev::CompleteAbort(t)),
+                6 => Act::Deliver("vote", t, r.below(np), false),
+                7 => Act::Deliver("commit", t, r.below(np), r.chance(1, 3)),
+                _ => Act::Deliver("abort", t, r.below(np), false),
+            });
+        }
+    };
+    if r.chance(1, 2) {
+        acts.push(Act::Ev(Ev::Advance(*r.pick(&[50u64, 101, 101]))));
+    }
+    acts.push(Act::Ev(Ev::Recover));
+    tail(r, &mut acts);
+    acts.push(Act::Ev(Ev::Advance(*r.pick(&[10u64, 101, 101, 5001]))));
+    if r.chance(3, 4) {
+        acts.push(Act::Ev(Ev::Recover));
+    }
+    tail(r, &mut acts);
+    for _ in 0..14 {
+        acts.push(Act::Ev(Ev::Deliver(0, false)));
+    }
+    for t in 1..=ntx {
+        acts.push(Act::Ev(if r.chance(1, 2) { Ev::CompleteCommit(t) } else { Ev::CompleteAbort(t) }));
+    }
+    dist.hit("sched.recover_family");
+    run_script(acts, kk, ntx, ctmo, &parts0, dist)
+}
+
+/// random member of the family "a Prepare arrives again while the transaction is still undecided": T1 is prepared on
+/// a shard, then loses its place there (its key locks time out, or a housekeeping sweep drops it), T2 prepares on the
+/// same keys, and the duplicate of Prepare(T1) arrives: it must be refused while T2 holds the keys
+fn run_reprepare(r: &mut Rng, dist: &mut Dist) -> Outcome {
+    let kk = 2;
+    let np = 2;
+    let star = r.below(np);
+    let parts0: Vec<(Vec<(u64, u64)>, u64)> = (0..np).map(|s| (vec![(0, r.range(1, 9))], if s == star { 50 } else { 30000 })).collect();
+    let p1: Vec<u64> = if r.chance(1, 2) { vec![star] } else { vec![0, 1] };
+    let p2: Vec<u64> = if r.chance(1, 2) { vec![star] } else { vec![0, 1] };
+    let k = r.below(kk);
+    let ops = |r: &mut Rng, ps: &[u64]| -> Vec<(u64, Vec<POp>)> {
+        ps.iter().map(|s| (*s, if *s == star { vec![POp::Put(k, r.range(1, 9))] } else { gen_ops(r, kk) })).collect()
+    };
+    let mut acts = vec![];
+    let o1 = ops(r, &p1);
+    acts.push(Act::Ev(Ev::Begin(p1.clone(), o1, false)));
+    for s in &p1 {
+        acts.push(Act::Deliver("prepare", 1, *s, *s == star));
+    }
+    if r.chance(1, 2) {
+        for s in &p1 {
+            acts.push(Act::Deliver("vote", 1, *s, false));
+        }
+    }
+    match r.below(3) {
+        0 => acts.push(Act::Ev(Ev::Advance(51))),
+        1 => acts.push(Act::Ev(Ev::Sweep(star, r.chance(1, 2), 0))),
+        _ => {
+            acts.push(Act::Ev(Ev::Advance(*r.pick(&[10u64, 51]))));
+            acts.push(Act::Ev(Ev::Sweep(star, r.chance(1, 2), *r.pick(&[0u64, 10]))));
+        }
+    }
+    let o2 = ops(r, &p2);
+    acts.push(Act::Ev(Ev::Begin(p2.clone(), o2, false)));
+    for s in &p2 {
+        acts.push(Act::Deliver("prepare", 2, *s, false));
+    }
+    acts.push(Act::Deliver("prepare", 1, star, false)); // the duplicate
+    for _ in 0..r.range(2, 8) {
+        let t = r.range(1, 2);
+        acts.push(match r.below(6) {
+            0 => Act::Ev(Ev::Commit(t)),
+            1 => Act::Ev(Ev::Abort(t)),
+            2 => Act::Deliver("vote", t, r.below(np), false),
+            3 => Act::Deliver("commit", t, r.below(np), false),
+            4 => Act::Deliver("abort", t, r.below(np), false),
+            _ => Act::Ev(Ev::Deliver(0, false)),
+        });
+    }
+    for _ in 0..10 {
+        acts.push(Act::Ev(Ev::Deliver(0, false)));
+    }
+    dist.hit("sched.reprepare");
     run_script(acts, kk, 2, 100000, &parts0, dist)
 }
 
@@ -789,8 +1006,161 @@ fn main() {
         sched.push(&o.term, "corpus duplicate Prepare+Commit of T1 after T2 committed the same key: shard 0 must keep T2's value (k0=2), as shard 1 does", true);
     }
 
+    {
+        // participant housekeeping between T1's end and its delayed duplicates: the sweep must not make the shard
+        // forget that T1 is finished
+        let parts0 = vec![(vec![(0u64, 5u64)], 30000u64), (vec![], 30000u64)];
+        let acts = vec![
+            Act::Ev(Ev::Begin(vec![0, 1], vec![(0, put(0, 1)), (1, put(1, 1))], false)),
+            Act::Deliver("prepare", 1, 0, true),
+            Act::Deliver("prepare", 1, 1, false),
+            Act::Deliver("vote", 1, 0, false),
+            Act::Deliver("vote", 1, 1, false),
+            Act::Ev(Ev::Commit(1)),
+            Act::Deliver("commit", 1, 0, true),
+            Act::Deliver("commit", 1, 1, false),
+            Act::Ev(Ev::Begin(vec![0, 1], vec![(0, put(0, 2)), (1, put(1, 2))], false)),
+            Act::Deliver("prepare", 2, 0, false),
+            Act::Deliver("prepare", 2, 1, false),
+            Act::Deliver("vote", 2, 0, false),
+            Act::Deliver("vote", 2, 1, false),
+            Act::Ev(Ev::Commit(2)),
+            Act::Deliver("commit", 2, 0, false),
+            Act::Deliver("commit", 2, 1, false),
+            Act::Ev(Ev::Sweep(0, false, 0)),
+            Act::Ev(Ev::Sweep(1, true, 0)),
+            Act::Deliver("prepare", 1, 0, false),
+            Act::Deliver("commit", 1, 0, false),
+            Act::Deliver("vote", 1, 0, false),
+        ];
+        let o = run_script(acts, 2, 2, 100000, &parts0, &mut dist);
+        sched.push(&o.term, "corpus housekeeping sweep (cleanup_stale / recover) between T1's commit and the delayed duplicates of its Prepare + Commit, T2 committed the same key in between", true);
+    }
+    {
+        // coordinator recover() gives up on a timed-out Preparing transaction; the missing Yes arrives late; commit must fail
+        let parts0 = vec![(vec![], 30000u64), (vec![], 30000u64)];
+        let acts = vec![
+            Act::Ev(Ev::Begin(vec![0, 1], vec![(0, put(0, 1)), (1, put(1, 1))], false)),
+            Act::Deliver("prepare", 1, 0, false),
+            Act::Deliver("prepare", 1, 1, false),
+            Act::Deliver("vote", 1, 0, false),
+            Act::Ev(Ev::Advance(101)),
+            Act::Ev(Ev::Recover),
+            Act::Deliver("vote", 1, 1, false),
+            Act::Ev(Ev::Commit(1)),
+            Act::Ev(Ev::Recover),
+            Act::Deliver("abort", 1, 0, false),
+            Act::Deliver("abort", 1, 1, false),
+            Act::Ev(Ev::CompleteAbort(1)),
+            Act::Ev(Ev::Deliver(0, false)),
+            Act::Ev(Ev::Deliver(0, false)),
+            Act::Ev(Ev::Deliver(0, false)),
+        ];
+        let o = run_script(acts, 2, 1, 100, &parts0, &mut dist);
+        sched.push(&o.term, "corpus recover() turns a timed-out Preparing transaction into Aborting (abort broadcast); the last Yes arrives late; commit must be refused", true);
+    }
+    {
+        // recover() decides COMMIT for an all-yes Prepared transaction; one shard applies; the deadline passes;
+        // a second recover(), cleanup_timeouts and abort() must all leave the decision alone
+        let parts0 = vec![(vec![], 30000u64), (vec![], 30000u64)];
+        let acts = vec![
+            Act::Ev(Ev::Begin(vec![0, 1], vec![(0, put(0, 7)), (1, put(1, 7))], false)),
+            Act::Deliver("prepare", 1, 0, false),
+            Act::Deliver("prepare", 1, 1, false),
+            Act::Deliver("vote", 1, 0, false),
+            Act::Deliver("vote", 1, 1, false),
+            Act::Ev(Ev::Recover),
+            Act::Deliver("commit", 1, 0, false),
+            Act::Ev(Ev::Advance(101)),
+            Act::Ev(Ev::Recover),
+            Act::Ev(Ev::Timeouts),
+            Act::Ev(Ev::TakeAborts),
+            Act::Ev(Ev::Abort(1)),
+            Act::Ev(Ev::Commit(1)),
+            Act::Ev(Ev::Deliver(0, false)),
+            Act::Ev(Ev::Deliver(0, false)),
+            Act::Ev(Ev::Deliver(0, false)),
+            Act::Ev(Ev::CompleteAbort(1)),
+            Act::Ev(Ev::CompleteCommit(1)),
+            Act::Ev(Ev::CompleteCommit(1)),
+        ];
+        let o = run_script(acts, 2, 1, 100, &parts0, &mut dist);
+        sched.push(&o.term, "corpus recover() decides commit (Committing), shard 0 applies, the deadline passes: second recover(), cleanup_timeouts, abort() must not turn it into an abort; shard 1 applies too", true);
+    }
+    {
+        // known class presumed-abort-after-yes: a participant sweep drops a transaction the shard voted Yes for; the
+        // coordinator commits; the other shard applies
+        let parts0 = vec![(vec![], 30000u64), (vec![(1u64, 4u64)], 30000u64)];
+        let acts = vec![
+            Act::Ev(Ev::Begin(vec![0, 1], vec![(0, put(0, 1)), (1, put(1, 1))], false)),
+            Act::Deliver("prepare", 1, 0, false),
+            Act::Deliver("prepare", 1, 1, false),
+            Act::Deliver("vote", 1, 0, false),
+            Act::Deliver("vote", 1, 1, false),
+            Act::Ev(Ev::Advance(10)),
+            Act::Ev(Ev::Sweep(1, false, 10)),
+            Act::Ev(Ev::Commit(1)),
+            Act::Deliver("commit", 1, 0, false),
+            Act::Deliver("commit", 1, 1, false),
+        ];
+        let o = run_script(acts, 2, 1, 100000, &parts0, &mut dist);
+        sched.push(&o.term, "corpus F-C03-presumed-abort: shard 1 votes Yes, cleanup_stale(10 ms) drops the prepared transaction, the coordinator commits, shard 0 applies, shard 1 answers the Commit with not-found", true);
+    }
+
+    {
+        // T1's key lock on shard 0 times out, T2 takes the key, the duplicate of Prepare(T1) arrives: Conflict, not Yes
+        let parts0 = vec![(vec![(0u64, 5u64)], 50u64)];
+        let acts = vec![
+            Act::Ev(Ev::Begin(vec![0], vec![(0, put(0, 1))], false)),
+            Act::Deliver("prepare", 1, 0, true),
+            Act::Ev(Ev::Advance(51)),
+            Act::Ev(Ev::Begin(vec![0], vec![(0, put(0, 2))], false)),
+            Act::Deliver("prepare", 2, 0, false),
+            Act::Deliver("prepare", 1, 0, false),
+            Act::Ev(Ev::Deliver(0, false)),
+            Act::Ev(Ev::Deliver(0, false)),
+            Act::Ev(Ev::Deliver(0, false)),
+            Act::Ev(Ev::Commit(2)),
+            Act::Ev(Ev::Deliver(0, false)),
+            Act::Ev(Ev::Abort(1)),
+            Act::Ev(Ev::Deliver(0, false)),
+        ];
+        let o = run_script(acts, 1, 2, 100000, &parts0, &mut dist);
+        sched.push(&o.term, "corpus duplicate Prepare(T1) after T1's key lock timed out and T2 took the key: must be refused (Conflict with T2)", true);
+    }
+    {
+        // a housekeeping sweep drops prepared T1 (its locks are released), T2 prepares on the key, duplicate Prepare(T1)
+        let parts0 = vec![(vec![(0u64, 5u64)], 30000u64)];
+        let acts = vec![
+            Act::Ev(Ev::Begin(vec![0], vec![(0, put(0, 1))], false)),
+            Act::Deliver("prepare", 1, 0, true),
+            Act::Ev(Ev::Sweep(0, false, 0)),
+            Act::Ev(Ev::Begin(vec![0], vec![(0, put(0, 2))], false)),
+            Act::Deliver("prepare", 2, 0, false),
+            Act::Deliver("prepare", 1, 0, false),
+            Act::Ev(Ev::Deliver(0, false)),
+            Act::Ev(Ev::Deliver(0, false)),
+            Act::Ev(Ev::Deliver(0, false)),
+            Act::Ev(Ev::Commit(2)),
+            Act::Ev(Ev::Deliver(0, false)),
+            Act::Ev(Ev::Commit(1)),
+            Act::Ev(Ev::Abort(1)),
+            Act::Ev(Ev::Deliver(0, false)),
+        ];
+        let o = run_script(acts, 1, 2, 100000, &parts0, &mut dist);
+        sched.push(&o.term, "corpus duplicate Prepare(T1) after cleanup_stale dropped T1 and T2 prepared on the key: must be refused (Conflict with T2)", true);
+    }
+
     for i in 0..args.budget(700, 30000) {
-        let o = if i % 8 == 7 { run_stale_dup(&mut rng, &mut dist) } else { run_random(&mut rng, &mut dist) };
+        let o = if i % 8 == 5 {
+            run_reprepare(&mut rng, &mut dist)
+        } else if i % 8 == 7 {
+            run_stale_dup(&mut rng, &mut dist)
+        } else if i % 8 == 3 {
+            run_recover_family(&mut rng, &mut dist)
+        } else {
+            run_random(&mut rng, &mut dist)
+        };
         dist.hit(&format!("sched.commits.{}", o.commits.min(3)));
         sched.push(&o.term, &o.human, o.commits + o.aborts >= 1 && o.dup_or_loss);
     }
